@@ -264,12 +264,16 @@ class Session:
             for t in sorted(want):
                 self.tokens.append("adv:%d:%s" % (t, want[t][0]))
             return
-        deadline = time.time() + 20
+        deadline = time.time() + 6
         while time.time() < deadline:
             st = self.states_now()
             if all(st.get(t) not in ("SUBMITTED", "RUNNING") for t in tids):
                 break
             time.sleep(0.005)
+        else:
+            self.stuck = getattr(self, "stuck", 0) + 1
+            if self.stuck >= 2:
+                raise RuntimeError("accepted tasks %r do not reach a final state" % (tids,))
         for t in sorted(tids):
             self.tokens.append("adv:%d:%s" % (t, self.expect_state[t][0]))
 
